@@ -70,6 +70,7 @@ struct sk_proc {
   int handle;              /* driver handle index this child was started for (0 = none) */
   int term;                /* reaction to SIGTERM */
   int killfail;            /* kill() on this process fails with EPERM (it changed its user id) */
+  int autoreaped;          /* reaped by the kernel itself (the parent ignores SIGCHLD) */
   int stopped;             /* 1: stopped and not yet reported to a waiter that asks for stopped children; 2: reported */
   struct sk_fd fd[SK_MAXFD];
   uint64_t mask;           /* blocked signals, bit (s-1) */
